@@ -167,6 +167,7 @@ func (in *Interp) resetState() {
 		errs:    map[string]*ErrObj{},
 		nsyms:   map[string]int{},
 		ghost:   map[string]Value{},
+		now:     in.tc.BV(0, 64),
 	}
 	in.trace = in.trace[:0]
 	in.syms = in.syms[:0]
